@@ -531,7 +531,7 @@ def check_panic_runtime(cx, chk, crate, label):
             chk.violation("C04.panic", tag, "panic-capable construct (%s) in a runtime function reachable from "
                           "generated parsers, with no recognised guard and no justification entry" % kind,
                           cx.site(b, i))
-    chk.floor("C04.panic", "%s panic-capable sites examined" % label, n, 11)
+    chk.floor("C04.panic", "%s panic-capable sites examined" % label, n, 13)
 
 
 # generated code: (kind) -> reason, by role of the function
